@@ -63,3 +63,26 @@ pub fn wake_by_ref_stub(w: &core::task::Waker) {
 pub unsafe fn drop_slow_stub<T: ?Sized, A: core::alloc::Allocator>(_a: &mut alloc::sync::Arc<T, A>) {
     panic!("C02: a reference-counted waker was freed while the combinator was alive");
 }
+
+/// Declares a Kani proof harness with the stub set of the active configuration
+/// (DESIGN.md section 2.5 lists every stub and what it assumes).
+#[macro_export]
+macro_rules! proof {
+    ($name:ident, $unwind:literal, $body:block) => {
+        #[cfg(kani)]
+        #[kani::proof]
+        #[kani::unwind($unwind)]
+        #[kani::stub(core::array::from_fn, $crate::stubs::from_fn_stub)]
+        #[cfg_attr(feature = "std", kani::stub(std::sync::Mutex::lock, $crate::stubs::lock_stub))]
+        #[cfg_attr(
+            feature = "std",
+            kani::stub(core::task::Waker::wake_by_ref, $crate::stubs::wake_by_ref_stub)
+        )]
+        #[cfg_attr(
+            feature = "std",
+            kani::stub(alloc::sync::Arc::drop_slow, $crate::stubs::drop_slow_stub)
+        )]
+        pub fn $name() $body
+    };
+}
+
